@@ -34,7 +34,7 @@ flavours_of() {
     C01|C04|C12|C18) echo "plain vec" ;;
     C14|C15|C19)     echo "vec" ;;
     C16)             echo "vec instvec racevec" ;;
-    C10)             echo "plain vec inst race" ;;
+    C10)             echo "plain inst instvec race" ;;
     C11)             echo "plain inst race" ;;
     C20)             echo "plain vec inst race" ;;
     *)               echo "plain" ;;
